@@ -87,4 +87,154 @@ theorem seek_set_r (h : H) (s : Store) (k : Int) (hi : HInv h s) (hm : h.mode = 
   obtain ⟨p1, sf1, b1, _, _, _⟩ := seek_success_rmode h s k 0 hi hm hok.1
   exact ⟨by rw [p1, hok.2], sf1, b1, HInv_stepSeek h s k 0 hi⟩
 
+
+/-! ## the per-channel scan -/
+
+/-- the samples the per-channel scan credits to channel `c` when the channel counter stands at `k` -/
+def chanSub (ch c : Nat) : Nat → List Nat → List Nat
+  | _, [] => []
+  | k, x :: xs => if k = c then x :: chanSub ch c ((k + 1) % ch) xs else chanSub ch c ((k + 1) % ch) xs
+
+theorem foldMaxAll_cons (ch : Nat) (pk : List Nat) (k : Nat) (x : Nat) (xs : List Nat) :
+    foldMaxAll ch (pk, k) (x :: xs) =
+      foldMaxAll ch (pk.set k (if gtD (absD x) (pk.getD k 0) then absD x else pk.getD k 0), (k + 1) % ch) xs := rfl
+
+theorem foldMaxAll_spec (ch c : Nat) (hch : 0 < ch) (xs : List Nat) : ∀ (pk : List Nat) (k : Nat), pk.length = ch → k < ch →
+    (foldMaxAll ch (pk, k) xs).1.getD c 0 = foldMax (pk.getD c 0) (chanSub ch c k xs) ∧
+    (foldMaxAll ch (pk, k) xs).1.length = ch := by
+  induction xs with
+  | nil => intro pk k hl _; exact ⟨rfl, hl⟩
+  | cons x xs ih =>
+    intro pk k hl hk
+    rw [foldMaxAll_cons]
+    have hk' : (k + 1) % ch < ch := Nat.mod_lt _ hch
+    obtain ⟨h1, h2⟩ := ih (pk.set k (if gtD (absD x) (pk.getD k 0) then absD x else pk.getD k 0)) ((k + 1) % ch)
+      (by rw [List.length_set]; exact hl) hk'
+    rw [h1, h2]
+    refine ⟨?_, rfl⟩
+    have hkl : k < pk.length := by rw [hl]; exact hk
+    by_cases hkc : k = c
+    · subst hkc
+      have e1 : (pk.set k (if gtD (absD x) (pk.getD k 0) then absD x else pk.getD k 0)).getD k 0 =
+          (if gtD (absD x) (pk.getD k 0) then absD x else pk.getD k 0) := by
+        simp [List.getD, hkl]
+      have e2 : chanSub ch k k (x :: xs) = x :: chanSub ch k ((k + 1) % ch) xs := by simp [chanSub]
+      rw [e1, e2]; rfl
+    · have e1 : (pk.set k (if gtD (absD x) (pk.getD k 0) then absD x else pk.getD k 0)).getD c 0 = pk.getD c 0 := by
+        simp [List.getD, List.getElem?_set, hkc]
+      have e2 : chanSub ch c k (x :: xs) = chanSub ch c ((k + 1) % ch) xs := by simp [chanSub, hkc]
+      rw [e1, e2]
+
+/-- buffering is irrelevant for the per-channel scan too -/
+theorem foldMaxAll_flatten (ch : Nat) (bufs : List (List Nat)) : ∀ st, bufs.foldl (foldMaxAll ch) st = foldMaxAll ch st bufs.flatten := by
+  induction bufs with
+  | nil => intro st; rfl
+  | cons b bs ih =>
+    intro st
+    simp only [List.foldl_cons, List.flatten_cons]
+    rw [ih]; unfold foldMaxAll; rw [List.foldl_append]
+
+/-- the samples credited to channel `c`, starting with the counter at `k`, are exactly those at the offsets `i` with
+    `(k + i) % ch = c` -/
+theorem mem_chanSub (ch c : Nat) (hch : 0 < ch) (hc : c < ch) (xs : List Nat) : ∀ k, k < ch → ∀ x,
+    x ∈ chanSub ch c k xs ↔ ∃ i, ∃ h : i < xs.length, xs[i] = x ∧ (k + i) % ch = c := by
+  induction xs with
+  | nil => intro k _ x; simp [chanSub]
+  | cons y ys ih =>
+    intro k hk x
+    have hk' : (k + 1) % ch < ch := Nat.mod_lt _ hch
+    have hshift : ∀ i, ((k + 1) % ch + i) % ch = (k + (i + 1)) % ch := by
+      intro i; rw [Nat.add_mod, Nat.mod_mod, ← Nat.add_mod]; congr 1; omega
+    unfold chanSub
+    by_cases hkc : k = c
+    · simp only [hkc, if_true, List.mem_cons]
+      constructor
+      · rintro (rfl | hx)
+        · exact ⟨0, by simp, rfl, by simpa using Nat.mod_eq_of_lt hc⟩
+        · obtain ⟨i, hi, hxi, hm⟩ := (ih ((c + 1) % ch) (hkc ▸ hk') x).mp hx
+          refine ⟨i + 1, by simpa using hi, by simpa using hxi, ?_⟩
+          rw [← hkc] at hm ⊢; rw [← hshift]; exact hm
+      · rintro ⟨i, hi, hxi, hm⟩
+        cases i with
+        | zero => left; simpa using hxi.symm
+        | succ i =>
+          right
+          apply (ih ((c + 1) % ch) (hkc ▸ hk') x).mpr
+          refine ⟨i, by simpa using hi, by simpa using hxi, ?_⟩
+          rw [← hkc] at hm ⊢; rw [hshift]; exact hm
+    · simp only [hkc, if_false]
+      constructor
+      · intro hx
+        obtain ⟨i, hi, hxi, hm⟩ := (ih ((k + 1) % ch) hk' x).mp hx
+        exact ⟨i + 1, by simpa using hi, by simpa using hxi, by rw [← hshift]; exact hm⟩
+      · rintro ⟨i, hi, hxi, hm⟩
+        cases i with
+        | zero => exfalso; apply hkc; simpa [Nat.mod_eq_of_lt hk] using hm
+        | succ i =>
+          apply (ih ((k + 1) % ch) hk' x).mpr
+          exact ⟨i, by simpa using hi, by simpa using hxi, by rw [hshift]; exact hm⟩
+
+/-! ## the assembled command on a read-only handle -/
+
+theorem cmdNormD (g : H) (t : Store) (b : Bool) :
+    stepCmdFlag g t 0x1012 (if b then 1 else 0) =
+      ({ g with error := 0, conv := { g.conv with normD := b } }, t, { ret := if g.conv.normD then 1 else 0 }) := by
+  cases b <;> simp [stepCmdFlag]
+
+theorem calcPre_r (h : H) (s : Store) (normalize : Bool) (hi : HInv h s) (hm : h.mode = .r) :
+    (calcPre h s normalize).2.2.1 = h.conv.normD ∧ (calcPre h s normalize).2.2.2.2 = h.rpos ∧
+    (calcPre h s normalize).1.mode = .r ∧ HInv (calcPre h s normalize).1 (calcPre h s normalize).2.1 ∧
+    (calcPre h s normalize).2.1.bytes = s.bytes ∧ (calcPre h s normalize).1.frames = h.frames ∧
+    (calcPre h s normalize).1.conv = { h.conv with normD := normalize } := by
+  let h1 : H := { h with error := 0, conv := { h.conv with normD := normalize } }
+  have hm1 : h1.mode = .r := hm
+  have hi1 : HInv h1 s := by
+    have := HInv_stepCmdFlag { h with error := 0 } s 0x1012 (if normalize then 1 else 0) (hi.set_error 0)
+    rw [cmdNormD] at this; exact this
+  let h2 : H := { h1 with error := 0 }
+  have hi2 : HInv h2 s := hi1.set_error 0
+  have hm2 : h2.mode = .r := hm
+  have hr := hi.rd hm
+  obtain ⟨p3, sf3, b3, hi3⟩ := seek_set_r h2 s 0 hi2 hm2 (le_refl _) (by
+    have := hr.rpos_le; have := hi.rpos_nn; show (0 : Int) ≤ h.frames; omega)
+  have e : calcPre h s normalize = ((stepSeek h2 s 0 0).1, (stepSeek h2 s 0 0).2.1, h.conv.normD, h.rpos, h.rpos) := by
+    unfold calcPre
+    simp only [cmdNormD]
+    have hnrw : (h.mode == Mode.rw) = false := by rw [hm]; decide
+    simp only [hnrw, Bool.false_eq_true, if_false]
+    rw [seek_cur_zero_r _ _ hm1]
+  rw [e]
+  refine ⟨rfl, rfl, by rw [← sf3.mode]; exact hm2, hi3, b3, by rw [← sf3.frames], by rw [← sf3.conv]⟩
+
+theorem calcPost_r (h : H) (s : Store) (save : Bool) (rp pos : Int) (hi : HInv h s) (hm : h.mode = .r)
+    (h0 : 0 ≤ pos) (h1 : pos ≤ h.frames) :
+    (calcPost h s save rp pos).1.rpos = pos ∧ (calcPost h s save rp pos).2.bytes = s.bytes ∧
+    (calcPost h s save rp pos).1.frames = h.frames ∧ (calcPost h s save rp pos).1.conv = { h.conv with normD := save } ∧
+    (calcPost h s save rp pos).1.error = 0 := by
+  obtain ⟨p5, sf5, b5, _⟩ := seek_set_r h s pos hi hm h0 h1
+  have hnrw : (h.mode == Mode.rw) = false := by rw [hm]; decide
+  unfold calcPost
+  simp only [hnrw, Bool.false_eq_true, if_false, cmdNormD]
+  exact ⟨p5, b5, by rw [← sf5.frames], by rw [← sf5.conv], trivial⟩
+
+/-- SFC_CALC_SIGNAL_MAX / _NORM_ / _MAX_ALL_CHANNELS / _NORM_MAX_ALL_CHANNELS on a read-only handle leave the read
+    position, every conversion setting (norm_double, norm_float, clipping, scale flags), the frame count and the file bytes
+    as they were, and no error -/
+theorem stepCalc_restores_r (h : H) (s : Store) (normalize : Bool) (hi : HInv h s) (hm : h.mode = .r) :
+    (stepCalc h s normalize).1.rpos = h.rpos ∧ (stepCalc h s normalize).1.conv = h.conv ∧
+    (stepCalc h s normalize).2.1.bytes = s.bytes ∧ (stepCalc h s normalize).1.frames = h.frames ∧
+    (stepCalc h s normalize).1.error = 0 := by
+  obtain ⟨e1, e2, pm, pi, pb, pf, pc⟩ := calcPre_r h s normalize hi hm
+  obtain ⟨sf4, b4, hi4⟩ := calcLoop_keeps ((calcPre h s normalize).1.frames.toNat + 1) _ _
+    { all := (List.replicate (calcPre h s normalize).1.ch 0, 0) } pi pm
+  have hr := hi.rd hm
+  have hm4 := sf4.mode.symm.trans pm
+  have hf4 := sf4.frames.symm.trans pf
+  obtain ⟨q1, q2, q3, q4, q5⟩ := calcPost_r _ _ (calcPre h s normalize).2.2.1 (calcPre h s normalize).2.2.2.1
+    (calcPre h s normalize).2.2.2.2 hi4 hm4 (by rw [e2]; exact hi.rpos_nn) (by rw [e2, hf4]; exact hr.rpos_le)
+  unfold stepCalc
+  simp only []
+  refine ⟨by rw [q1, e2], ?_, by rw [q2, b4, pb], by rw [q3, hf4], q5⟩
+  rw [q4, e1, ← sf4.conv, pc]
+
 end Sf.Peak
